@@ -56,6 +56,7 @@ func ruleR20Scalar(c *Ctx, prop string) {
 		"C08": {"Transpose", "Concat", "Slice", "Gather", "Expand"},
 		"C09": {"ArgMax", "ReduceMax", "ReduceMin", "Softmax", "LogSoftmax"},
 		"C10": propOps["C10"],
+		"C03": propOps["C03"],
 		"C11": {"Cast", "Constant", "ConstantOfShape"},
 	}
 	n := 0
@@ -154,10 +155,37 @@ func ruleR20Scalar(c *Ctx, prop string) {
 // isTypeSwitchArm: the assertion is one arm of a type switch (its failing edge leads to another
 // assertion on the same operand).
 func (c *Ctx) isTypeSwitchArm(ta *ssa.TypeAssert) bool {
+	sl, isSlice := ta.AssertedType.Underlying().(*types.Slice)
+	other := false
 	for _, r := range *ta.X.Referrers() {
-		if o, ok := r.(*ssa.TypeAssert); ok && o != ta && o.CommaOk && o.Block().Parent() == ta.Block().Parent() {
+		o, ok := r.(*ssa.TypeAssert)
+		if !ok || o == ta || !o.CommaOk || o.Block().Parent() != ta.Block().Parent() {
+			continue
+		}
+		other = true
+		// the switch also handles the bare value of this element type: a conversion, not an assumption
+		if isSlice && types.Identical(o.AssertedType, sl.Elem()) {
 			return true
 		}
+	}
+	if !other {
+		return false
+	}
+	// or every arm failing ends in an error: follow the failing edges of the chain to a rejecting block
+	b := ta.Block()
+	for i := 0; i < 24 && b != nil; i++ {
+		iff, ok := b.Instrs[len(b.Instrs)-1].(*ssa.If)
+		if !ok {
+			return c.blockRejects(b, 0)
+		}
+		ex, isEx := iff.Cond.(*ssa.Extract)
+		if !isEx {
+			return c.blockRejects(b, 0)
+		}
+		if _, isTA := ex.Tuple.(*ssa.TypeAssert); !isTA {
+			return c.blockRejects(b, 0)
+		}
+		b = b.Succs[1]
 	}
 	return false
 }
@@ -967,4 +995,73 @@ func ruleR19Steps(c *Ctx, prop string) {
 	c.decide(okRange, "R19", "R19:Slice:empty-range", c.pos(site.Pos()),
 		"start < end is established before Tensor.Slice",
 		"user-supplied start/end reach gorgonia's Tensor.Slice without a start < end test: gorgonia turns an extent <= 0 into 1 (ap.go AP.S), so the empty range [2:2] of a vector yields the element at 2 instead of an empty tensor or an error")
+}
+
+// ruleSliceAxisIndex (R19:Slice:shape-by-axis): entry i of starts/ends/steps belongs to axis axes[i]. Whatever
+// Slice derives per entry from the data's shape (a clamp bound, a negative offset) must read the extent at the
+// axis VALUE, not at the entry position i: `shape[i]` is right only for the default axes 0..n-1.
+func ruleSliceAxisIndex(c *Ctx, prop string) {
+	oi := c.opByName("Slice")
+	if oi == nil {
+		return
+	}
+	apply := oi.methods["Apply"]
+	reach := map[*ssa.Function]bool{}
+	for f := range c.reachFrom([]*ssa.Function{apply}) {
+		if f == apply || recvNamed(f) == oi.named {
+			reach[f] = true
+		}
+	}
+	scope := func(f *ssa.Function) bool { return reach[f] || fnPkgPath(f) == pkgOps }
+	var shapeSeeds, entrySeeds []ssa.Value
+	for _, b := range apply.Blocks {
+		for _, in := range b.Instrs {
+			switch x := in.(type) {
+			case *ssa.Call:
+				if nm, recv := tensorMethod(x); nm == "Shape" && sameInputLoad(recv, apply.Params[1], 0) {
+					shapeSeeds = append(shapeSeeds, x)
+				}
+			case *ssa.UnOp:
+				for _, k := range []int64{1, 2, 3, 4} {
+					if sameInputLoad(x, apply.Params[1], k) {
+						entrySeeds = append(entrySeeds, x)
+					}
+				}
+			}
+		}
+	}
+	S := c.forwardSet(shapeSeeds, nil, scope)
+	E := c.forwardSet(entrySeeds, nil, scope)
+	n, bad, badSite := 0, "", ""
+	for f := range reach {
+		for _, l := range loopsOf(f) {
+			if l.idx == nil {
+				continue
+			}
+			lc, ok := l.bound.(*ssa.Call)
+			if !ok {
+				continue
+			}
+			bi, isB := lc.Common().Value.(*ssa.Builtin)
+			if !isB || bi.Name() != "len" || !E.has(lc.Common().Args[0]) {
+				continue
+			}
+			// a loop over the entries: the data's shape must not be read at the loop index itself
+			for b := range loopBlocks(l.hdr) {
+				for _, in := range b.Instrs {
+					ia, ok := in.(*ssa.IndexAddr)
+					if !ok || !S.has(ia.X) || E.has(ia.X) {
+						continue
+					}
+					n++
+					if ia.Index == l.idx {
+						bad = "the data's shape is read at the position of an entry of starts/ends/steps instead of at the axis that entry belongs to (axes[i]): with axes other than 0..n-1 the bound of another axis is used, e.g. data 2x5, starts=[1], ends=[4], axes=[1] is clamped with extent 2"
+						badSite = c.pos(ia.Pos())
+					}
+				}
+			}
+		}
+	}
+	c.decide(bad == "", "R19", "R19:Slice:shape-by-axis", firstNonEmpty(badSite, c.pos(apply.Pos())),
+		fmt.Sprintf("no read of the data's shape at an entry position (%d shape reads inside loops over the entries)", n), bad)
 }
